@@ -445,7 +445,12 @@ func main() {
 	keepDir = *keep
 	if *fuzz19 {
 		for i := 0; i < *n; i++ {
+			// (flushed per case: if the process dies in a case, the cases before it are on record and
+			// the one that killed it is known)
+			fmt.Fprintf(w, "case %d\n", *first+i)
+			w.Flush()
 			fails += runFuzz19(w, *first+i, *seed*1000003+int64(*first+i))
+			w.Flush()
 		}
 		w.Flush()
 		return
